@@ -233,4 +233,3 @@ theorem loginHead_preserved (fuel : Nat) (c : CS) (o : Oracle) (out : List Out) 
             simp only [hc, ↓reduceIte] at hna
             exact onRun_loginHead _ _ _ _ _ _ _ _ hpre (fun c' o' out' tmo' hl hn => ih c' o' out' tmo' hl hn) hna
 
-#print axioms loginHead_preserved
